@@ -100,7 +100,7 @@ func rooted(parent, name string) (string, error) {
 		return name[1:], nil
 	}
 	r := path.Join(path.Dir(parent), name)
-	if strings.HasPrefix(r, "..") {
+	if r == ".." || strings.HasPrefix(r, "../") {
 		return "", os.ErrNotExist
 	}
 	return r, nil
